@@ -92,7 +92,12 @@ _B = {"empty": b"", "pad2": b"\xfb", "pad1": b"\xfb\xff", "pad0": b"\xfb\xff\xbf
 _S = {"lead": "  lead", "trail": "trail  ", "inner": "in  ner", "tabs": "\ttab\tbed\t", "nl": "line\nbreak\n", "lnl": "\nstart",
       "blank": "   ", "onlynl": "\n", "mixedws": " \t\n mixed \n\t ", "empty": "", "cr": "a\r\nb\r", "uni": "\u00a0nb\u2003sp\u00a0"}
 _F = {"inf": float("inf"), "ninf": float("-inf"), "nan": float("nan"), "nzero": -0.0, "huge": 1e300, "tiny": 5e-324, "tenth": 0.1,
-      "whole": 3.0}
+      "whole": 3.0,
+      # 7..17 significant digits, large / small exponents: repr differs from "%g", "%f", "%.6f", "%.12g" renderings
+      "d7": 1.234567, "d8": 12.345678, "d9": 123456.789, "d10": 1234567.891, "d12": 0.123456789012, "d13": 1e-7 + 1e-13,
+      "d15": 123456789.123456, "d16": 0.1 + 0.2, "d17": 3.141592653589793, "third": 1.0 / 3.0, "max": 1.7976931348623157e308,
+      "minnorm": 2.2250738585072014e-308, "e22": 1e22, "e23": 1e23, "int53": 9007199254740993.0, "e16p2": 1e16 + 2,
+      "small": -2.5e-05, "smalld": 1.2345678901234e-200, "bigd": -9.87654321098765e+250, "half6": 100000.5, "f6": 0.0000015}
 TYPED = {}
 for _n, _v in _B.items():
     TYPED["b64_" + _n] = ("b64", _v)
@@ -110,6 +115,7 @@ TYPED.update({
     "str_dict": ("sdict", {"k1": _S["trail"], "k2": _S["mixedws"], "k3": _S["onlynl"]}),
     "float_list": ("flist", [_F["inf"], _F["nzero"], _F["nan"], 1.5]),
     "float_list_fin": ("flist", [_F["nzero"], _F["tiny"], 1.5, 3.0]),
+    "float_list_digits": ("flist", [_F["d17"], _F["d10"], _F["d16"], _F["d13"], _F["bigd"]]),
     "bool_true": ("bool", True), "bool_false": ("bool", False), "int_one": ("int", 1), "int_zero": ("int", 0),
     "int_neg": ("int", -7), "int_big": ("int", 2 ** 40),
     "none_int": ("int", None), "none_float": ("float", None), "none_bool": ("bool", None), "none_b64": ("b64", None),
@@ -118,6 +124,18 @@ TYPED.update({
 for _n, (_m, _v) in TYPED.items():
     PLAIN_VALUES[_n] = _v
     PLAIN_FIELD[_n] = _m
+# for every kind above whose value is not None: the variant "the field has that value as its DEFAULT and was explicitly
+# assigned None before the save" -- the saved file says null and a fresh configuration must hold None, not the default.
+# Typed ListField / DictField are left out: None is accepted but loads back as [] / {} (format-independent, observed, see
+# reg_C19).
+PLAIN_DEFAULT = {}
+DEFAULT_NONE = {}
+for _n, (_m, _v) in list(TYPED.items()):
+    if _v is not None and _m in ("int", "str", "bool", "float", "b64", "hex"):
+        DEFAULT_NONE["dn_" + _n] = (_m, _v)
+        PLAIN_VALUES["dn_" + _n] = None
+        PLAIN_FIELD["dn_" + _n] = _m
+        PLAIN_DEFAULT["dn_" + _n] = _v
 # (format, kind) the format cannot carry (measured on the unchanged tree over every kind x format; listed in reg_C19):
 # XML normalises line ends, '\r\n' and '\r' are read back as '\n'.  Everything else above round-trips exactly in all
 # five formats.  (Also measured, format-independent, not generated: a typed ListField / DictField that was never set
@@ -183,15 +201,16 @@ def build_schema(fields):
         if kind == "plain":
             from cincoconfig import BytesField
             makers = {"int": IntField, "str": StringField, "bool": BoolField, "float": FloatField,
-                      "b64": BytesField, "hex": lambda: BytesField(encoding="hex"),
-                      "ilist": lambda: ListField(IntField()), "slist": lambda: ListField(StringField()),
-                      "flist": lambda: ListField(FloatField()), "b64list": lambda: ListField(BytesField()),
-                      "hexlist": lambda: ListField(BytesField(encoding="hex")),
-                      "sdict": lambda: DictField(StringField(), StringField()),
-                      "b64dict": lambda: DictField(StringField(), BytesField())}
+                      "b64": BytesField, "hex": lambda **kw: BytesField(encoding="hex", **kw),
+                      "ilist": lambda **kw: ListField(IntField(), **kw), "slist": lambda **kw: ListField(StringField(), **kw),
+                      "flist": lambda **kw: ListField(FloatField(), **kw), "b64list": lambda **kw: ListField(BytesField(), **kw),
+                      "hexlist": lambda **kw: ListField(BytesField(encoding="hex"), **kw),
+                      "sdict": lambda **kw: DictField(StringField(), StringField(), **kw),
+                      "b64dict": lambda **kw: DictField(StringField(), BytesField(), **kw)}
             if PLAIN_FIELD.get(f[2]) not in makers:
                 raise Broken("bad plain kind %r" % (f,))
-            setattr(s, key, makers[PLAIN_FIELD[f[2]]]())
+            kw = {"default": PLAIN_DEFAULT[f[2]]} if f[2] in PLAIN_DEFAULT else {}
+            setattr(s, key, makers[PLAIN_FIELD[f[2]]](**kw))
         elif kind == "any":
             setattr(s, key, AnyField())
         elif kind == "ulist":
@@ -227,6 +246,8 @@ def populate(cfg, fields, pre, real, inject, stepno=0, first=True):
             if PLAIN_VALUES[f[2]] is not None:
                 v = PLAIN_VALUES[f[2]]
                 setattr(cfg, key, list(v) if isinstance(v, list) else dict(v) if isinstance(v, dict) else v)
+            elif f[2] in PLAIN_DEFAULT:
+                setattr(cfg, key, None)             # explicitly None although the field has a default
             if f[3]:
                 fld = schema_fields[key]
                 inject["stubs"].setdefault(id(fld), (fld, []))[1].append((cfg, f[3]))
@@ -953,7 +974,7 @@ def roundtrip_matrix(formats):
             for container in UNTYPED:
                 fields = [("plain", "a", "int", None), (container, "u", kind), ("plain", "z", "str", None)]
                 cases.append(mkcase(fmt, fields, kind="roundtrip", faults=["domain:" + kind] if fmt in OUTSIDE[kind] else []))
-        for kind in sorted(TYPED):
+        for kind in sorted(TYPED) + sorted(DEFAULT_NONE):
             if (fmt, kind) in TYPED_NOT_REPRESENTABLE:
                 continue
             leaf = ("plain", "t", kind, None)
@@ -979,7 +1000,7 @@ def random_fields(rng, depth, allow_any=True):
         r = rng.random()
         if r < 0.45:
             fields.append(("plain", key, rng.choice(["int", "str", "bool", "float", "ilist", "slist", "none"]
-                                                    + (sorted(TYPED) if rng.random() < 0.5 else [])), None))
+                                                    + (sorted(TYPED) + sorted(DEFAULT_NONE) if rng.random() < 0.5 else [])), None))
         elif r < 0.65:
             fields.append(("secret", key, rng.choice(["xor", "aes", "best"]),
                            rng.choice([True, True, True, False] + SECRET_LENGTHS), None))
